@@ -179,4 +179,25 @@ theorem T03_ref_attrs :
     b_Lanelet_create_node_adjacentRight.attrs.lookup "drivingDir" = some (.cond (.const "same") (.const "opposite")) := by
   decide +kernel
 
+/-- the opaque tests the model ties of CRProps/T03.lean interpret (`env.atom i`), as the source has them NOW: the parameters
+    of the hand models (`oriSet`, `ctrSet`, `offset`, `marking`, the environment's three flags, `direction`, the prediction
+    kind) mean exactly these tests -/
+theorem T03_guard_texts :
+    b_Rectangle_create_rectangle_node.atoms = ["_.orientation != 0.0", "np.any(np.asarray(_.center) != 0.0)"] ∧
+    b_Circle_create_circle_node.atoms = ["np.any(np.asarray(_.center) != 0.0)"] ∧
+    b_TrafficLightCycle_create_node.atoms = ["_.time_offset > 0"] ∧
+    b_TrafficLight_create_node.atoms = ["_.direction is not TrafficLightDirection.ALL"] ∧
+    b_Environment_create_node.atoms =
+      ["_.time_of_day.value is not TimeOfDay.UNKNOWN", "_.weather.value is not Weather.UNKNOWN",
+       "_.underground.value is not Underground.UNKNOWN"] ∧
+    b_Lanelet_create_node.atoms =
+      ["hasattr(_, 'line_marking_left_vertices')", "isinstance(_.line_marking_left_vertices, LineMarking)",
+       "_.line_marking_left_vertices is not LineMarking.UNKNOWN",
+       "hasattr(_, 'line_marking_right_vertices')", "isinstance(_.line_marking_right_vertices, LineMarking)",
+       "_.line_marking_right_vertices is not LineMarking.UNKNOWN"] ∧
+    b_DynamicObstacle_create_node.atoms =
+      ["isinstance(_.prediction, SetBasedPrediction)", "isinstance(_.prediction, TrajectoryPrediction)"] ∧
+    b_PhantomObstacle_create_node.atoms = ["isinstance(_.prediction, SetBasedPrediction)"] ∧
+    b_Occupancy_create_node.atoms = ["isinstance(_.time_step, Interval)"] := by decide +kernel
+
 end CR.T03
